@@ -109,7 +109,7 @@ func (r *coreRun) reset() {
 	is.SetDebugMode(false)
 	is.SetTraceMode(false)
 	takeAll()
-	d := slog.Default().Root()
+	d := defaultEntry()
 	r.loggers = []*slog.Entry{nil, d}
 	r.ids = map[*slog.Entry]int{d: 1}
 	sink.reset()
@@ -315,15 +315,15 @@ func (r *coreRun) exec(ev coreEvent) (rec map[string]any) {
 	return rec
 }
 
-var reSGR = regexp.MustCompile("\x1b\\[[0-9;]*m")
-var reIntAttrText = regexp.MustCompile(`(?:^|[ ,{])"?k(\d\d)"?[=:](-?\d+)`)
+var coreReSGR = regexp.MustCompile("\x1b\\[[0-9;]*m")
+var coreReIntAttr = regexp.MustCompile(`(?:^|[ ,{])"?k(\d\d)"?[=:](-?\d+)`)
 
 // intAttrs projects the integer attributes with keys kNN out of a record in any format, in
 // printed order, as [[key, value], ...].
 func intAttrs(p []byte) [][]int {
-	txt := reSGR.ReplaceAllString(string(p), "")
+	txt := coreReSGR.ReplaceAllString(string(p), "")
 	res := [][]int{}
-	for _, m := range reIntAttrText.FindAllStringSubmatch(txt, -1) {
+	for _, m := range coreReIntAttr.FindAllStringSubmatch(txt, -1) {
 		var k, v int
 		fmt.Sscanf(m[1], "%d", &k)
 		fmt.Sscanf(m[2], "%d", &v)
@@ -332,7 +332,7 @@ func intAttrs(p []byte) [][]int {
 	return res
 }
 
-var reSkipName = regexp.MustCompile(`^c/.*\[(-?\d+)\]$`)
+var coreReSkipName = regexp.MustCompile(`^c/.*\[(-?\d+)\]$`)
 
 func (r *coreRun) normName(nm string) string {
 	if nm == "" {
@@ -343,7 +343,7 @@ func (r *coreRun) normName(nm string) string {
 			return nm
 		}
 	}
-	if m := reSkipName.FindStringSubmatch(nm); m != nil {
+	if m := coreReSkipName.FindStringSubmatch(nm); m != nil {
 		return "c/[" + m[1] + "]"
 	}
 	return "?"
@@ -436,7 +436,7 @@ func (r *coreRun) observe(rec map[string]any) {
 			}
 		}
 		if r.obs["gate"] {
-			o["gate"] = r.gateTable(id, l)
+			r.gateTable(id, l, o)
 		}
 		obs = append(obs, o)
 	}
